@@ -329,6 +329,8 @@ def report(ctx, insts, events, results, verdicts):
         clauses = list(fails)
         if res.get("same_text") is False:
             clauses.append("saveload.text_differs_from_writer")
+        if res.get("model_changed"):
+            clauses.append("write.model_changed")          # C16: export never changes the model it is given
         if not clauses:
             ctx.traces += 1
             continue
@@ -410,6 +412,8 @@ def replay(ctx, rec):
     fails = validate(ctx, [inst], [to_trace(ev, res)], "replay")[1]
     if res.get("same_text") is False:
         fails = fails + ["saveload.text_differs_from_writer"]
+    if res.get("model_changed"):
+        fails = fails + ["write.model_changed"]
     if fails:
         return {"api": _api(ev["fmt"], fails), "clause": "+".join(sorted(fails)),
                 "observed": {k: res.get(k) for k in ("werr", "lexerr", "rerr", "aliens")}}
@@ -946,10 +950,13 @@ def roundtrips(payload):
         path = os.path.join(payload["tmp"], "e%d_%d.%s" % (ev["tid"], os.getpid(), EXT[fmt]))
         res = {"tid": ev["tid"], "wexc": False, "wok": False, "doc": {}, "rdone": False, "rexc": False, "same_text": None}
         text = None
+        from ..frames import model_snapshot
+        snap0 = model_snapshot(model)
         try:
             text = _write(model, fmt, route, path)
         except Exception as ex:  # noqa
             res["wexc"], res["werr"] = True, repr(ex)[:300]
+        res["model_changed"] = model_snapshot(model) != snap0
         if text is not None:
             res["text"] = text[:1500]
             key = (ev["case"], ev["cseed"], fmt)
